@@ -69,7 +69,8 @@ VARIABLES val,      \* Seq: val[c] \in [Keys -> Val \cup {0}]   the value of con
           live,     \* context ids the program still holds a handle to (0, the empty context, always is)
           phase,    \* ghost per thread: 0 start, 1 deep (>= DeepTarget) reached, 2 unwound to <= 3, 3 deep again
           last,     \* the last operation (for the action properties and the export)
-          flags,    \* ghost: rare conditions seen so far (generation runs)
+          flags,    \* ghost (generation / coverage runs): [f |-> rare conditions seen so far,
+                    \*        dn |-> for every dropped handle c, the number of contexts that existed when it was dropped]
           hist      \* behaviour export
 
 bvars == <<val, origin, stack, toks, scopes, live, phase>>
@@ -95,12 +96,14 @@ Obs == [cur  |-> [t \in Threads |-> Cur(stack', t)],
         live |-> [c \in 1..Len(val') |-> c \in live']]
 Rec(l) == /\ last' = l
           /\ hist' = IF Hist THEN Append(hist, l @@ Obs) ELSE hist
-Flag(f) == flags' = IF Hist \/ KeepFlags THEN flags \cup f ELSE flags
+FlagD(f, d) == flags' = IF Hist \/ KeepFlags THEN [f |-> flags.f \cup f, dn |-> d] ELSE flags
+Flag(f) == FlagD(f, flags.dn)
+NoFlags == [f |-> {}, dn |-> <<>>]
 
 Init == /\ val = <<>> /\ origin = <<>>
         /\ stack = [t \in Threads |-> <<>>]
         /\ toks = {} /\ scopes = {} /\ live = {} /\ phase = [t \in Threads |-> 0]
-        /\ last = NoOp /\ flags = {} /\ hist = <<>>
+        /\ last = NoOp /\ flags = NoFlags /\ hist = <<>>
 
 Handles == live \cup {0}
 \* growth / unwinding cycle of a thread's stack (ghost; only moves when DeepTarget is reachable)
@@ -156,7 +159,14 @@ DetachFlags(t, c) ==
   LET o == Occ(stack, t, c) IN
   IF o = {} THEN (IF stack[t] # <<>> THEN {"foreign"} ELSE {}) \cup
                  (IF \E u \in Threads : u # t /\ Occ(stack, u, c) # {} THEN {"foreign_xthread"} ELSE {}) \cup
-                 (IF c = 0 /\ stack[t] = <<>> THEN {"empty_tok"} ELSE {})
+                 (IF c = 0 /\ stack[t] = <<>> THEN {"empty_tok"} ELSE {}) \cup
+                 \* a STALE token (detached before, every handle of its context dropped, nothing derived from it, on
+                 \* no stack) while a context created AFTER the drop is current: it still changes nothing
+                 (IF /\ c \in DOMAIN flags.dn /\ stack[t] # <<>>
+                     /\ stack[t][Len(stack[t])].c > flags.dn[c]
+                     /\ \A u \in Threads : Occ(stack, u, c) = {}
+                     /\ \A q \in 1..NCtx : origin[q].p # c
+                    THEN {"stale_token_after_reuse"} ELSE {})
   ELSE (IF Max(o) < Len(stack[t]) THEN {"ooo"} ELSE {}) \cup
        (IF Cardinality(o) > 1 THEN {"dup"} ELSE {}) \cup
        (IF Cardinality(o) > 1 /\ Max(o) < Len(stack[t]) THEN {"dup_ooo"} ELSE {}) \cup
@@ -212,14 +222,15 @@ DropContext(t, c) ==
   /\ live' = live \ {c}
   /\ UNCHANGED <<val, origin, stack, toks, scopes, phase>>
   /\ Rec([NoOp EXCEPT !.op = "Drop", !.t = t, !.c = c])
-  /\ Flag(LET p == origin[c].p
+  /\ FlagD(LET p == origin[c].p
                attached == \E u \in Threads : Occ(stack, u, c) # {} IN
            (IF Children(c) = {} /\ p \in live THEN {"drop_child_first"} ELSE {}) \cup
            (IF Children(c) = {} /\ p \in live /\ origin[p].p # 0 /\ ~attached /\ c \notin toks
                THEN {"drop_leaf_of_chain"} ELSE {}) \cup
            (IF Children(c) # {} THEN {"drop_parent_first"} ELSE {}) \cup
            (IF Children(c) # {} /\ p \in live THEN {"drop_middle"} ELSE {}) \cup
-           (IF attached THEN {"drop_attached"} ELSE {}))
+           (IF attached THEN {"drop_attached"} ELSE {}),
+           flags.dn @@ (c :> NCtx))
 
 (* ---- generation runs only: a closing no-op step, so that a random walk ends in exactly one ---- *)
 (* ---- exported behaviour (observations are still compared after it)                      ---- *)
@@ -291,7 +302,7 @@ Bound == Len(hist) <= GenDepth
 EmitAll == (Len(hist) = GenDepth /\ last.op = "End") => PrintT(<<"BEH", ToJson(hist)>>)
 \* generation bias: build a deep stack first (crosses the 2/6/14/30/62 reallocation steps of the
 \* real thread-local array), only then allow detaching
-DeepFirst == ("deep" \notin flags) => last'.op \in {"Attach", "ScopeEnter", "SetValue", "SetValues"}
+DeepFirst == ("deep" \notin flags.f) => last'.op \in {"Attach", "ScopeEnter", "SetValue", "SetValues"}
 \* grow beyond DeepTarget, unwind to <= 3, grow beyond DeepTarget again, then anything (shrink-after-growth)
 Grow == {"Attach", "ScopeEnter", "SetValue", "SetValues", "End"}
 DeepCycle == LET t == last'.t IN
@@ -299,7 +310,7 @@ DeepCycle == LET t == last'.t IN
                /\ phase[t] \in {0, 2} => last'.op \in Grow
                /\ phase[t] = 1 => last'.op \in {"Detach", "ScopeExit", "Drop"}
 Closing == (Len(hist) = GenDepth - 1) => last'.op = "End"
-Wit(f) == (f \in flags) => (PrintT(<<"BEH", ToJson(hist)>>) /\ FALSE)
+Wit(f) == (f \in flags.f) => (PrintT(<<"BEH", ToJson(hist)>>) /\ FALSE)
 WitShadow       == Wit("shadow")
 WitSibling      == Wit("sibling")
 WitEmptyMap     == Wit("emptymap")
@@ -311,6 +322,7 @@ WitReattach     == Wit("reattach")
 WitForeign      == Wit("foreign")
 WitForeignX     == Wit("foreign_xthread")
 WitEmptyTok     == Wit("empty_tok")
+WitStaleToken   == Wit("stale_token_after_reuse")
 WitOoo          == Wit("ooo")
 WitDup          == Wit("dup")
 WitDupOoo       == Wit("dup_ooo")
